@@ -327,9 +327,12 @@ func (b *AESGCMBarrier) persistKeyringInternal(ctx context.Context, keyring *Key
 		return fmt.Errorf("failed to persist root key: %w", err)
 	}
 
-	// Delete the legacy value if it exists.
-	if err := b.backend.Delete(ctx, LegacyRootKeyPath); err != nil {
-		return fmt.Errorf("failed to remove legacy root key path: %w", err)
+	// Delete the legacy value if it exists. Only the root namespace's barrier
+	// ever had one; a namespace's barrier must leave the root's entry alone.
+	if b.metaPrefix == "" {
+		if err := b.backend.Delete(ctx, LegacyRootKeyPath); err != nil {
+			return fmt.Errorf("failed to remove legacy root key path: %w", err)
+		}
 	}
 
 	return nil
